@@ -226,6 +226,21 @@ func tfra(trackID uint32, moofOffsets []uint32) []byte {
 	return fullbox("tfra", 0, 0, u32(trackID), u32(0), u32(uint32(len(moofOffsets))), e)
 }
 
+// tfraX: version 0/1 and any length-size block (traf/trun/sample number fields of 1..4 bytes each)
+func tfraX(trackID uint32, moofOffsets []uint32, ver byte, lens byte) []byte {
+	var e []byte
+	nb := func(k byte) []byte { return make([]byte, 1+int(k&3)) }
+	for i, o := range moofOffsets {
+		if ver == 1 {
+			e = cat(e, u64(uint64(i)*1000), u64(uint64(o)))
+		} else {
+			e = cat(e, u32(uint32(i)*1000), u32(o))
+		}
+		e = cat(e, nb(lens>>4), nb(lens>>2), nb(lens))
+	}
+	return fullbox("tfra", ver, 0, u32(trackID), u32(uint32(lens&0x3f)), u32(uint32(len(moofOffsets))), e)
+}
+
 func mfra(tfras ...[]byte) []byte {
 	body := cat(tfras...)
 	size := uint32(8 + len(body) + 16)
